@@ -38,9 +38,7 @@ theorem label_without_records_absent (xs : List (Label × α)) (k : Label)
     "row `i` of the result is the packed row its index points to, missing for `-1`"
     (chunk-level refinement of `take`, any layout). -/
 theorem left_join_lookup (packed : PStruct α) (indexer : List (Option Nat)) :
-    (packed.take indexer).rows = indexer.map fun o => match o with
-      | none => none
-      | some j => (packed.rows[j]?).join :=
+    (packed.take indexer).rows = indexer.map (pickRow packed.rows) :=
   PStruct.take_rows packed indexer
 
 /-- `from_flat`: the base rows are the first occurrences — an element is kept iff no equal label
